@@ -12,6 +12,7 @@ mod c11;
 mod c13;
 mod c14;
 mod c15;
+mod c17;
 mod sp;
 mod case;
 mod gen;
@@ -91,6 +92,10 @@ fn main() {
                 "C15" => {
                     rep = Report::new("C15", "symmetric non-negative integer matrices: every matrix on 2-4 taxa with entries up to a bound, random matrices to 30 (60) taxa with large distinct entries (tie-free), with small entries (deliberate ties), and ultrametric matrices derived from random clock-like trees, taxa in random order; the exact rational model is compared with the crate's tree (topology, child order, names; lengths exactly when dyadic, else 1e-9; cases whose smallest positive decision margin is below 1e-6 are not compared); a case is one matrix; non-trivial = at least three taxa");
                     c15::run(tier == "thorough", seed, &driver, &mut rep);
+                }
+                "C17" => {
+                    rep = Report::new("C17", "generator calls: leaf counts 2..60 (2..300), three shapes, three branch-length distributions, both length flags, several seeds (seedable-RNG hook); the random choices are read back from the real result and the model must rebuild the identical tree and tip numbering from them; a case is one call; non-trivial = at least three leaves");
+                    c17::run(tier == "thorough", seed, &driver, &mut rep);
                 }
                 "C02" => {
                     rep = Report::new("C02", "strings fed to Tree::from_newick (corpus, every string up to a length bound over the token alphabet ( ) , ; : [ ] \" a 1 space, every short float lexeme, mutated valid Newick, random Unicode); a case is one string; non-trivial = contains at least one structural token");
